@@ -145,6 +145,20 @@ def gen(seed, tier):
             block += [['pack', 'after_all']]
         at = r.randrange(len(ops) + 1)
         ops[at:at] = block
+    if r.random() < 0.2:
+        # a blob becomes garbage (with one or with several revisions) and
+        # is packed away
+        k = r.randrange(3)
+        block = [['create', k], ['commit']]
+        if r.random() < 0.5:
+            block += [['write', k, 'w'], ['commit']]
+        block += [['unlink', k]]
+        if r.random() < 0.3:
+            block += [['other'], ['commit']]
+        block += [['pack', r.choice(('after_all', 'after_all',
+                                     'before_last'))]]
+        at = r.randrange(len(ops) + 1)
+        ops[at:at] = block
     if r.random() < 0.12:
         # bulk-load pattern: write, savepoint, cache pressure, commit
         k = r.randrange(3)
@@ -841,6 +855,24 @@ class M:
         self.trace.append('undo')
         self.after_step('after undo', True)
 
+    def op_unlink(self, k):
+        """The blob of slot k is taken out of the root (a transaction of
+        its own) and forgotten: garbage for the next collecting pack."""
+        A = self.A
+        A.abort()
+        self.end_fail()
+        if k not in self.blobs:
+            return
+        A.begin()
+        name = 'b%d' % k
+        if name in A.root():
+            del A.root()[name]
+        A.commit()
+        self.adopt()
+        del self.blobs[k]
+        self.trace.append('unlink')
+        self.after_step('after unlink', True)
+
     def op_pack(self, when):
         if self.kind == 'demoblob':
             return      # (the changes are a MappingStorage: C16's subject)
@@ -1056,6 +1088,8 @@ def run(case):
                 m.op_undo(*op[1:])
             elif k == 'pack':
                 m.op_pack(op[1])
+            elif k == 'unlink':
+                m.op_unlink(op[1])
             elif k == 'sp':
                 m.op_sp()
             elif k == 'rb':
